@@ -22,7 +22,7 @@ def _spec_hash():
     return h.hexdigest()[:16]
 
 
-def export_family(name, tier):
+def export_family(name, tier, module="Gen_Families"):
     """All cfgs of Family(name, tier), as enumerated by TLC."""
     cdir = os.path.join(tlc.CACHE, "families")
     os.makedirs(cdir, exist_ok=True)
@@ -34,7 +34,7 @@ def export_family(name, tier):
             with open(cfgf, "w") as f:
                 f.write('INIT Init\nNEXT Next\nCHECK_DEADLOCK FALSE\nCONSTANTS FAMILY = "%s"\nTIER = %d\n' % (name, tier))
             out = os.path.join(wd, "out.ndjson")
-            rc, o = tlc.run_tlc("Gen_Families", cfgf, wd, env={"OUT_FILE": out}, workers=1,
+            rc, o = tlc.run_tlc(module, cfgf, wd, env={"OUT_FILE": out}, workers=1,
                                 timeout=1800, heap="4g")
             if rc != 0 or not os.path.exists(out):
                 raise tlc.MachineryError("family export %s/%d failed:\n%s" % (name, tier, o[-2000:]))
@@ -48,6 +48,8 @@ def export_family(name, tier):
             if line:
                 c = json.loads(line)
                 c["id"] = "%s%d.%d" % (name, tier, i)
+                if "cfg" in c and isinstance(c["cfg"], dict):
+                    c["cfg"]["id"] = c["id"]
                 cfgs.append(c)
     return cfgs
 
